@@ -329,6 +329,21 @@ class LocalFlow:
                 return a.value
         if isinstance(a, ast.AnnAssign) and isinstance(a.target, ast.Name) and a.target.id == name:
             return a.value
+        # a, b = x, y  is read element-wise;  a, b = e  as e[0], e[1]
+        if isinstance(a, ast.Assign) and len(a.targets) == 1 and isinstance(a.targets[0], (ast.Tuple, ast.List)) and self.cfg.nodes[site].kind == 'stmt':
+            t = a.targets[0]
+            if not any(isinstance(e, ast.Starred) for e in t.elts):
+                idx = [i for i, e in enumerate(t.elts) if isinstance(e, ast.Name) and e.id == name]
+                if len(idx) == 1:
+                    if isinstance(a.value, (ast.Tuple, ast.List)) and len(a.value.elts) == len(t.elts) and not any(isinstance(e, ast.Starred) for e in a.value.elts):
+                        # simultaneous assignment: safe to read element-wise only if no target is read by another element
+                        tn = {e.id for e in t.elts if isinstance(e, ast.Name)}
+                        others = [v for j, v in enumerate(a.value.elts) if j != idx[0]]
+                        if not any(isinstance(x, ast.Name) and x.id in tn for v in a.value.elts for x in ast.walk(v)):
+                            return a.value.elts[idx[0]]
+                        return None
+                    sub = ast.Subscript(value=a.value, slice=ast.Constant(value=idx[0]), ctx=ast.Load())
+                    return ast.fix_missing_locations(ast.copy_location(sub, a))
         return None
 
     def values_reaching(self, nid: int, name: str) -> List[Tuple[int, Optional[ast.AST]]]:
